@@ -215,11 +215,16 @@ class Scheduler:
                            "setdefault", "add", "discard", "reverse", "popitem", "__setitem__",
                            "__setattr__", "cache_clear"})
 
-    def _writes_of(self, code: Any) -> frozenset[int]:
+    def _writes_of(self, code: Any, frame: Any = None) -> frozenset[int]:
         w = self._write_lines.get(id(code))
         if w is None:
+            import collections
             import dis
+            import weakref
 
+            shared_types = (dict, list, set, bytearray, collections.deque, weakref.WeakValueDictionary,
+                            weakref.WeakKeyDictionary, weakref.WeakSet)
+            glob = frame.f_globals if frame is not None else {}
             lines = set()
             cur_line = code.co_firstlineno
             for ins in dis.get_instructions(code):
@@ -227,6 +232,10 @@ class Scheduler:
                     cur_line = ins.starts_line
                 if ins.opname in self._WRITE_OPS or (
                         ins.opname in ("LOAD_ATTR", "LOAD_METHOD") and ins.argval in self._MUTATORS):
+                    lines.add(cur_line)
+                elif ins.opname == "LOAD_GLOBAL" and isinstance(glob.get(ins.argval), shared_types):
+                    # a line that touches a module-level mutable container (a check-then-act
+                    # window on process-wide state opens right after it)
                     lines.add(cur_line)
             w = frozenset(lines)
             self._write_lines[id(code)] = w
@@ -239,7 +248,7 @@ class Scheduler:
             # completed: if it was a write line we are now "just after a write"
             code = frame.f_code
             cur.after_write = cur.prev_was_write
-            cur.prev_was_write = frame.f_lineno in self._writes_of(code)
+            cur.prev_was_write = frame.f_lineno in self._writes_of(code, frame)
         if self.global_step > self.step_cap:
             raise StepCap(f"step cap {self.step_cap} exceeded")
         if cur.in_op and not boundary:
